@@ -422,9 +422,8 @@ def execute(variant, case):
     setup, fn, arg = case_call(case)
     text_of_call = arg if fn in ("RunString", "LoadDatabaseString") else next((c[2] for c in setup if c[0] == "writefile"), None) or "\n".join(c[4] for c in setup if c[0] == "call" and c[3] == "AccumulateLine")
     surv = survivors_of(setup)
-    if case["k"] == "fault" and case["f"] == "insel":
-        # DUMP -file <name> in the input sets the instance's dump file name; a user-set file name survives a load (C07)
-        surv = surv + [("call", "s0", "c", "SetDumpFileName", BADNAMES[case["name"]])]
+    # (a DUMP -file <name> that could not be opened never becomes the instance's dump file name: GetDumpFileName keeps the
+    #  previous name, and since fix 0f9e3e19 a load also returns the engine's pending dump request to that name)
     ref = reference(variant, surv)
     fresh(d)
     d.cmd("mkdir", "adir")
